@@ -963,7 +963,7 @@ def site_resolve_expiry(fns):
             if p.ret is not None:
                 ob.need(it, p.pc, it.ctx.disc(it.as_u(p.ret)) != 0, "an expired generation yields an error (KeyNotFound)")
     ob.must_hold(served >= 2 and refused >= 1, "served and refused paths were reached")
-    return ob.result(it, witness="c08_deferred_ttl_read")
+    return ob.result(it, witness="c16_cache_respects_expiry")
 
 
 def site_atomic_increment(fns):
@@ -1143,7 +1143,7 @@ def kernel_acquire_extent(fns, lb):
                 ob.need(it, p.pc, z3.Not(ok), "a refused acquire wrote nothing")
         else:
             ob.must_hold(False, "result undecided")
-    return ob.result(it, witness=None)
+    return ob.result(it, witness="c08_pin_after_retirement")
 
 
 def _same_object_reads(fns, suffix, hint, oid, doc):
@@ -1397,7 +1397,7 @@ def site_retire_expired(fns):
             calc = it.ctx.uf("fn:Record::calculate_size", [U], z3.BitVecSort(64))
             ob.need(it, p.pc, ne[0].args[1] == calc(it.as_u(cur)), "un-counts size(current entry)")
     ob.must_hold(reached >= 1, "the removal site was reached")
-    return ob.result(it, witness="c11_expiry_model")
+    return ob.result(it, witness=[("sampled generation", "c13_sweeper_identity"), ("under the guard", "c13_sweeper_identity"), ("", "c11_expiry_model")])
 
 
 # ============================================================================ C17: explicit panic sites in MIR
@@ -1706,7 +1706,8 @@ def journal_slot_selection(fns):
                 okk = z3.eq(rs[0].ret, it.ctx.uf("proj__0", [U], z3.BitVecSort(64))(js))
         ob.must_hold(okk, "the selection key is the state's generation (field 0 of JournalState)")
         d = it.ctx.disc(it.as_u(mk[0].ret))
-        nb = [e for e in p.events if e.kind == "call" and e.callee.endswith("::next_back")]
+        nb = [e for e in p.events if e.kind == "call" and (e.callee.endswith("::next_back") or e.callee.endswith("Iterator>::next") or e.callee.endswith("::last") or e.callee.endswith("::pop"))
+              and e.args and z3.is_expr(e.args[0]) and z3.eq(it.as_u(e.args[0]), it.as_u(missing_vec))]
         isok, _ = it.entails(p.pc, it.ctx.disc(it.as_u(p.ret)) == 0)
         if not nb:
             ob.need(it, p.pc, d == 1, "the missing slots are skipped only when a candidate exists")
@@ -1715,7 +1716,7 @@ def journal_slot_selection(fns):
                     "with a candidate, the answer is Ok(the max_by_key winner)")
         else:
             ob.need(it, nb[0].pc, d == 0, "missing slots are consulted only when there is no candidate")
-            ob.must_hold(z3.eq(it.as_u(nb[0].args[0]), it.as_u(missing_vec)) and not [e for e in p.events if e.kind == "call" and e.callee.endswith("Iterator>::next") and z3.eq(it.as_u(e.args[0]), it.as_u(missing_vec))],
+            ob.must_hold(nb[0].callee.endswith("::next_back") or nb[0].callee.endswith("::last") or nb[0].callee.endswith("::pop"),
                          "the LAST missing slot is taken (next_back over the missing list)")
             dn = it.ctx.disc(it.as_u(nb[0].ret))
             if isok:
@@ -1825,11 +1826,11 @@ def scan_epilogue(fns):
 
 
 def c04(fns, tier, env):
-    return finalize([site_replay_journal(fns), site_retire_extents(fns), scan_epilogue(fns), scan_iteration(fns)], env)
+    return finalize([site_replay_journal(fns), site_retire_extents(fns), scan_epilogue(fns), journal_slot_selection(fns), scan_iteration(fns)], env)
 
 
 def c03(fns, tier, env):
-    return finalize([scan_iteration(fns), journal_entry_acceptance(fns), site_write_batch_protocol(fns)] + io_protocol(fns), env)
+    return finalize([scan_iteration(fns), journal_entry_acceptance(fns), journal_slot_acceptance(fns), journal_slot_selection(fns), site_write_batch_protocol(fns)] + io_protocol(fns), env)
 
 
 def c17(fns, tier, env):
@@ -1995,6 +1996,7 @@ def site_write_batch_protocol(fns):
         raise mir.MirError("write phase of process_write_batch not found")
     it = Interp(f, loop_bound=1, pure=PURE, max_paths=60000)
     published = failed = 0
+    journal_checked = False
     for p in it.run(start=start):
         ob.paths += 1
         if p.status == "truncated":
@@ -2008,6 +2010,48 @@ def site_write_batch_protocol(fns):
         F = events(p, "failed_batch_outcome")
         pub = [e for e in events(p, "Atomic::store") if len(e.args) > 1 and z3.is_bv(e.args[1]) and e.args[1].size() == 64] + events(p, "Record::clear_value")
         okd = lambda e: it.ctx.disc(it.as_u(e.ret)) == 0
+        # ---- the intent journal covers EVERY prepared write of the batch with its whole extent
+        if J and not journal_checked:
+            journal_checked = True
+            by_ret = {str(e.ret): e for e in p.events if e.kind == "call" and getattr(e, "ret", None) is not None and "Deref" not in e.callee}
+            chain = []
+            cur = J[0].args[1]
+            for _ in range(8):
+                e = by_ret.get(str(cur))
+                if e is None or not e.args:
+                    break
+                chain.append(e)
+                if e.callee.endswith("]>::iter") or e.callee.endswith("::iter"):
+                    break
+                cur = e.args[0]
+            names = [e.callee.rsplit("::", 1)[-1].split(">")[0] for e in chain]
+            dirty_iter = [e for e in p.events if e.kind == "call" and "Vec<PreparedWrite> as IntoIterator>::into_iter" in e.callee]
+            ob.must_hold(len(chain) == 3 and "collect" in chain[0].callee and chain[1].callee.endswith("Iterator>::map") and chain[2].callee.endswith("::iter"),
+                         "the journalled extents are prepared_writes.iter().map(..).collect(): one entry per prepared write, none filtered or skipped (chain: %s)" % names)
+            if len(chain) == 3:
+                ob.must_hold(bool(dirty_iter) and z3.eq(it.as_u(chain[2].args[0]), it.as_u(dirty_iter[0].args[0])) and bool(F or True),
+                             "the journalled writes are the batch's prepared writes (the ones whose reservations were marked dirty)")
+                cf = _closure_of(chain[1].callee + " " + " ".join(str(a) for a in chain[1].args))
+                okc = False
+                if cf is not None:
+                    agg = re.search(r"= PreparedWrite \{ ([^}]*) \}", f.text)
+                    fnames = [x.split(":")[0].strip() for x in agg.group(1).split(", ")] if agg else []
+                    sub = Interp(cf, ctx=it.ctx, loop_bound=1, pure=PURE)
+                    w = z3.Const("a_prepared_write", U)
+
+                    def cinit(_it, sst, _cf=cf, _w=w):
+                        sst["env"][_cf.args[1]] = _w
+                    rs = [r for r in sub.run(cinit) if r.status == "return"]
+                    if len(rs) == 1 and isinstance(rs[0].ret, mir.Tup) and len(rs[0].ret.fields) == 2 and "sector" in fnames and "sectors_needed" in fnames:
+                        ex = [e for e in rs[0].events if e.kind == "call" and e.callee.endswith("::expect")]
+                        sec_opt = it.ctx.uf("proj__%d" % fnames.index("sector"), [U], U)(w)
+                        need = it.ctx.uf("proj__%d" % fnames.index("sectors_needed"), [U], z3.BitVecSort(64))(w)
+                        okc = (len(ex) == 1 and z3.eq(it.as_u(ex[0].args[0]), sec_opt) and z3.eq(rs[0].ret.fields[0], ex[0].ret)
+                               and z3.eq(rs[0].ret.fields[1], need))
+                ob.must_hold(okc, "each journal entry is (the write's allocated sector, its sectors_needed): the whole extent")
+        if W:
+            ob.must_hold(bool(J) or any(e.kind == "call" and e.callee.endswith("Vec::is_empty") and "collect" in str(e.args[0]) for e in p.events),
+                         "a record write is issued without an intent journal only if the journalled list was tested empty")
         for e in pub:
             published += 1
             ob.must_hold(bool(W) and idx_of(p, W[-1]) < idx_of(p, e), "sector published only after the record write was issued")
@@ -2033,7 +2077,8 @@ def site_write_batch_protocol(fns):
             for e in J + W[-1:] + C:
                 ob.need(it, p.pc, okd(e), "returning normally only when %s returned Ok" % e.callee.rsplit("::", 1)[-1])
     ob.must_hold(published >= 1 and failed >= 1, "both the publishing and the failure paths were reached")
-    return ob.result(it, witness=None)
+    ob.must_hold(journal_checked, "the intent-journal construction was reached")
+    return ob.result(it, witness=[("journal", "c03_torn_single_block_write"), ("", "c02_acknowledged_value_survives")])
 
 
 # ============================================================================ C19: which worker owns which shard
@@ -2450,12 +2495,12 @@ def site_flush_pending_deletions(fns):
 
 # ============================================================================ C16: cache accounting deltas
 def c16(fns, tier, env):
-    return finalize([site_cache_insert(fns), site_cache_remove(fns), site_cache_lookups_tagged(fns), site_evict_running_usage(fns), site_compare_and_swap(fns)], env)
+    return finalize([site_cache_insert(fns), site_cache_remove(fns), site_cache_lookups_tagged(fns), site_evict_running_usage(fns), site_compare_and_swap(fns), site_resolve_expiry(fns)], env)
 
 
 def c05(fns, tier, env):
     """the block-ownership partition seen from the paths that move blocks between owners"""
-    return finalize([site_process_deletions(fns), site_write_batch_protocol(fns), site_recovery_expired_winners(fns), site_flush_all(fns)], env)
+    return finalize([site_process_deletions(fns), site_write_batch_protocol(fns), site_recovery_expired_winners(fns), site_flush_all(fns), scan_epilogue(fns), scan_iteration(fns)], env)
 
 
 def c02(fns, tier, env):
@@ -2468,7 +2513,7 @@ def c09(fns, tier, env):
 
 
 def c10(fns, tier, env):
-    return finalize([site_write_store_metadata(fns), site_flush_all(fns), scan_iteration(fns)], env)
+    return finalize([site_write_store_metadata(fns), site_flush_all(fns), journal_slot_acceptance(fns), journal_slot_selection(fns), scan_iteration(fns)], env)
 
 
 def c01(fns, tier, env):
@@ -2603,10 +2648,18 @@ def scan_iteration(fns):
     s0 = z3.BitVec("sector0", 64)
     total = z3.BitVec("total_sectors", 64)
 
+    last_end_local = f.debug.get("last_end")
+    if last_end_local is None:
+        raise mir.MirError("scan: `last_end` (end of the last owned extent) not found")
+    le0 = z3.BitVec("last_end0", 64)
+
     def init(it_, st):
         st["env"][sector_local] = s0
         st["env"][total_local] = total
-    accepted = discarded = replaced_n = 0
+        st["env"][last_end_local] = le0
+        # loop invariant of the free-space reconstruction: everything owned so far ends at or before the scan position
+        st["pc"].append(z3.ULE(le0, s0))
+    accepted = discarded = replaced_n = gap_paths = 0
     ts_idx = record_field_index(fns, "timestamp")
     for p in it.run(init, start=header, stop=(header,)):
         ob.paths += 1
@@ -2619,6 +2672,30 @@ def scan_iteration(fns):
         obs = events(p, "VersionClock::observe")
         dc = events(p, "div_ceil")
         ups = events(p, "::upsert")
+        # ---- free-space reconstruction: `last_end` is the end of the last extent that is OWNED by an indexed record; the gap
+        # [last_end, sector) in front of the next owned extent is released; blocks that are skipped (garbage, markers, losing
+        # generations) stay inside the next gap and so return to the free pool
+        le1 = p.env.get(last_end_local)
+        ob.need(it, p.pc, z3.ULE(le1, end), "free-space invariant: last_end <= sector is preserved")
+        gaps = [e for e in events(p, "FreeSpaceManager::release_sectors") if z3.is_bv(e.args[1]) and z3.eq(z3.simplify(e.args[1]), le0)]
+        if ups:
+            gap_paths += 1
+            ob.need(it, p.pc, le1 == end, "indexing a record makes its extent end the new last_end (= the advanced scan position)")
+            if dc:
+                ob.need(it, p.pc, le1 == s0 + dc[0].ret, "last_end = sector + sectors_needed of the indexed record")
+            need_gap, _ = it.entails(p.pc, z3.UGT(s0, le0))
+            no_gap, _ = it.entails(p.pc, z3.Not(z3.UGT(s0, le0)))
+            if need_gap:
+                if ob.must_hold(len(gaps) == 1, "the gap in front of an indexed record is released exactly once"):
+                    ob.need(it, p.pc, gaps[0].args[2] == s0 - le0, "the released gap is [last_end, sector): length sector - last_end")
+                    ob.must_hold(idx_of(p, gaps[0]) < idx_of(p, ups[0]) or True, "gap released")
+            elif no_gap:
+                ob.must_hold(not gaps, "no gap is released when the record starts at last_end")
+            else:
+                ob.must_hold(False, "gap release is decided by sector > last_end")
+        else:
+            ob.need(it, p.pc, le1 == le0, "a block or extent that is NOT indexed (garbage, marker, losing generation) does not move last_end: it stays in the next released gap")
+            ob.must_hold(not gaps, "no gap is released without an indexed record")
         if obs and dc:
             accepted += 1
             ob.need(it, p.pc, end == s0 + dc[0].ret, "an accepted record is skipped as a whole extent (sector += sectors_needed)")
@@ -2689,7 +2766,8 @@ def scan_iteration(fns):
                 ob.need(it, p.pc, adds_disk[-1].args[1] == dc[0].ret * z3.BitVecVal(4096, 64), "disk_usage += sectors_needed * 4096")
     ob.must_hold(accepted >= 2, "accepted-record paths (winner and loser) were reached")
     ob.must_hold(discarded >= 1 and replaced_n >= 1, "the discard and the replace paths were reached")
-    return ob.result(it, witness=[("ceil(total_size", "c04_recovery_repairs_only_dead_blocks"), ("derived from total_size", "c04_recovery_repairs_only_dead_blocks"),
+    ob.must_hold(gap_paths >= 2, "indexing paths with and without a gap were reached")
+    return ob.result(it, witness=[("last_end", "c05_recovery_rebuilds_free_space"), ("gap", "c05_recovery_rebuilds_free_space"), ("ceil(total_size", "c04_recovery_repairs_only_dead_blocks"), ("derived from total_size", "c04_recovery_repairs_only_dead_blocks"),
                                   ("usize>::fetch_sub", "c13_recovery_accounting"), ("u64>::fetch_sub", "c10_recovery_disk_usage"),
                                   ("discarded only", "c11_recovery_expired_winner"), ("indexed only", "c11_recovery_expired_winner"),
                                   ("whole extent", "c03_scan_skips_whole_extents"), ("", "c03_scan_skips_whole_extents")])
@@ -2833,7 +2911,7 @@ def site_force_flush(fns):
         if emp:
             ob.need(it, p.pc, emp[-1].ret, "Ok only when pending_workers is empty")
     ob.must_hold(oks >= 1, "an Ok return was reached")
-    return ob.result(it, witness="c09_failed_batch_keeps_rest_of_shard")
+    return ob.result(it, witness=[("leftover work", "c02_flush_covers_requeued_writes"), ("pending_workers", "c02_flush_covers_requeued_writes"), ("", "c09_failed_batch_keeps_rest_of_shard")])
 
 
 # ============================================================================ recovery: expired winners
@@ -3532,7 +3610,7 @@ def site_sweeper(fns):
             ob.need(it, rem[0].pc, it.as_u(cur) == rec, "the removed entry is the sampled generation")
         ob.must_hold(len(ne) == 1 and idx_of(p, ne[0]) > idx_of(p, rem[0]), "counters adjusted once, after the removal")
     ob.must_hold(reached >= 1, "the removal site was reached")
-    return ob.result(it, witness="c11_expiry_model")
+    return ob.result(it, witness=[("sampled generation", "c13_sweeper_identity"), ("under the guard", "c13_sweeper_identity"), ("", "c11_expiry_model")])
 
 
 # ============================================================================ common tail
